@@ -35,6 +35,20 @@ PROBES = {"FixMdBounds": "txmetadata-readfrom", "FixVLenZero": "vlen-zeroed", "F
           "FixTxBinding": "commit-log-entry-retargeted", "FixVLogBound": "vlogid-out-of-range"}
 
 
+SEQ_CFG = """CONSTANTS
+  OutFile = "%s"
+  Seed = %d
+  MaxLen = %d
+  SampleMod = %d
+  CacheModes = {"off", "small", "large"}
+  VerifyCacheHits = %s
+  PutBeforeVerify = %s
+SPECIFICATION Spec
+INVARIANTS TypeOK Safe PristineFine OffIsDisk
+CHECK_DEADLOCK FALSE
+"""
+
+
 def cfg_text(out, seed, cfgs, max_alts, flags, inv):
     """flags: {constant: bool}; the model of the code as read takes each repair switch from a probe of the real code"""
     fx = "\n".join("  %s = %s" % (f, "TRUE" if flags[f] else "FALSE") for f in FIXES + ["AcceptLocators"])
@@ -96,15 +110,82 @@ def run(chk, args):
                          files=[("c.cfg", cfg_text("", seed, mcfgs, 2, flags, "TypeOK DetectedOrInvisible"))])
         return (kind, None, None, r)
 
-    # the harness only needs the matrices: the two machine runs keep going while the real stores are exercised
-    ex = cf.ThreadPoolExecutor(len(cfgs) + 2)
+    # ---- read sequences with a per-process cache (spec/CorruptionSeq.tla): TLC explores every sequence up to MaxLen
+    # x alteration placement x kind x cache mode for the code as read (cache filled before the digest is compared,
+    # digest compared for hits too: Safe must hold), for the broken combination (hits not verified: Safe must FAIL,
+    # which shows the model can see the defect class) and, thorough, for the alternative safe design; the cases it
+    # writes are replayed on real stores with VLogCacheSize 0 / 1 / 64
+    def seq_model(name, verify, put, out):
+        sub = os.path.join(wd, "tlc_seq_" + name)
+        os.makedirs(sub)
+        ml, sm = (4, 30) if thorough else (3, 7)
+        r = vlib.run_tlc("CorruptionSeq", "s.cfg", workdir=sub, workers=2, timeout=1500,
+                         files=[("s.cfg", SEQ_CFG % (out, seed, ml, sm, "TRUE" if verify else "FALSE", "TRUE" if put else "FALSE"))])
+        return (name, r)
+
+    def seq_replay():
+        out = os.path.join(wd, "seq_cases.json")
+        name, r = seq_model("as-read", True, True, out)
+        vlib.tlc_must_pass(r, "CorruptionSeq (code as read)")
+        sdir = os.path.join(wd, "dseq")
+        os.makedirs(sdir)
+        hargs = ["-seq", out, "-seed", str(seed), "-dir", sdir, "-tier", chk.tier, "-workers", "8"]
+        if not thorough:
+            hargs += ["-budget", os.environ.get("VERIF_C09_SEQ_BUDGET", "20")]
+        hout, _ = vlib.run_harness(binp, hargs, timeout=3000 if thorough else 600)
+        return r, json.loads(hout), len(json.load(open(out))["cases"])
+
+    # the harness only needs the matrices: the machine runs keep going while the real stores are exercised
+    ex = cf.ThreadPoolExecutor(len(cfgs) + 5)
     mfut = [ex.submit(matrix_part, i) for i in range(len(cfgs))]
     sfut = [ex.submit(machine, "as-read"), ex.submit(machine, "repaired")]
+    qfut = ex.submit(seq_replay)
+    bfut = [ex.submit(seq_model, "hits-not-verified", False, True, "")]
+    if thorough:
+        bfut.append(ex.submit(seq_model, "only-verified-bytes-cached", False, False, ""))
     try:
-        run_stores(chk, [f.result() for f in mfut], binp, wd, thorough)
-        machines_done(chk, [f.result() for f in sfut])
+        if not os.environ.get("VERIF_C09_SEQ_ONLY"):
+            run_stores(chk, [f.result() for f in mfut], binp, wd, thorough)
+            machines_done(chk, [f.result() for f in sfut])
+        seq_done(chk, qfut.result(), [f.result() for f in bfut])
     finally:
         ex.shutdown(wait=True)
+
+
+def seq_done(chk, replay, models):
+    r, h, ncases = replay
+    chk.add_tlc(r, "CorruptionSeq code as read (cache filled before verification, hits verified): Safe holds; %d cases written" % ncases)
+    for name, m in models:
+        if name == "hits-not-verified":
+            if m.error:
+                raise MachineryFault("CorruptionSeq (%s): %s" % (name, m.error))
+            chk.add_tlc(m, "CorruptionSeq cache hits not verified (counterexample expected: %s)" % m.violation)
+            if m.violation != "Safe":
+                raise MachineryFault("CorruptionSeq: the model does not see unverified cache hits (violation=%r)" % m.violation)
+            st = vlib.error_trace_last_state(m.out)
+            chk.cov["seq_model_counterexample_hits_not_verified"] = {k: st.get(k) for k in ("mode", "kind", "altAt", "hist")} if st else None
+        else:
+            vlib.tlc_must_pass(m, "CorruptionSeq (%s)" % name)
+            chk.add_tlc(m, "CorruptionSeq %s: Safe holds" % name)
+    vlib.absorb(chk, h)
+    ctr = h.get("counters") or {}
+    chk.cov["seq_cases_from_model"] = ncases
+    # vacuity guards: the relations the property is about were really exercised, with the cache on, and the cache was seen working
+    need = ["seq-checked-read-cache-on:second-read-after-failed-first", "seq-checked-read-cache-on:checked-after-unchecked",
+            "seq-checked-read-cache-on:after-good-read", "seq-cache-hit-observed"]
+    for k in need:
+        if not ctr.get(k):
+            raise MachineryFault("read-sequence replay is vacuous: counter %s is 0" % k)
+    if ctr.get("seq-orig-from-altered-file-without-cache"):
+        raise MachineryFault("read-sequence replay: with the cache off a checked read returned the original from an altered file "
+                             "(%d times): the in-place alteration did not reach the store" % ctr["seq-orig-from-altered-file-without-cache"])
+    chk.cov["rule"] = (chk.cov.get("rule") or "") + (
+        " | read sequences: every relevant sequence of 2 reads and a seeded sample of the longer ones (ops RV, RVE, EXc, EXs, GET on "
+        "two values) x alteration placement x kind x cache mode from spec/CorruptionSeq.tla, each replayed on every store class at "
+        "seeded alteration points; an evaluation = one step of one replay")
+    chk.assumptions.append("read sequences: two values in two single-entry txs, one alteration (value bytes or a digest-covered record byte) "
+                           "applied in place while the store is open, sequences up to length %d, VLogCacheSize 0/1/64; reads with "
+                           "skipIntegrityCheck are not judged" % (4 if chk.tier == "thorough" else 3))
 
 
 def machines_done(chk, results):
